@@ -773,5 +773,6 @@ const rule = "fault plans: payload kind x upload sources (length, chunking, fail
 func Props() []kit.Runner {
 	return []kit.Runner{
 		kit.Prop[Plan]{ID: "C12", Name: "plans", Rule: rule, Quick: 2500, Thorough: 6000, Gen: Gen, Check: Check, Classify: Classify, Enumerate: Enumerate},
+		tcpProp(),
 	}
 }
